@@ -1,7 +1,7 @@
 """C09 — inverting a range yields its complement, and inverting twice yields the original."""
 import random
 
-from harness import common, core, vers
+from harness import common, core, dense, vers
 
 
 def run(ctx):
@@ -129,12 +129,15 @@ def run(ctx):
                 viol(f"{k}: inverting vers:{k}/{body} after the same text was inverted in other schemes: complement/involution/version class fail ({flips})",
                      inputs=dict(scheme=k, text=f"vers:{k}/{body}", order=sch))
                 break
+    # ---- the same statement on dense families of versions (one edit apart, equal under another spelling): harness/dense.py
+    dense_ev, dense_per = dense.run(ctx, "C09", r, lambda what, **kw: violations.append(dict(kind="counterexample", stage="search", what=what, **kw)))
+    evals += dense_ev
     if not violations and (diffs or not proofs["ok"]):
         what = ("theorems of Props/C09.v no longer check: " + str(proofs.get("error"))[-400:]) if not proofs["ok"] else \
             ("model and implementation differ: " + str(diffs[0]))
         violations.append(dict(kind="no-failing-input-found", stage="proof" if not proofs["ok"] else "correspondence",
                                theorem_or_stream="Props/C09.v" if not proofs["ok"] else "VersionRange.invert vs Model.invert", what=what, diffs=diffs[:10]))
-    cov = dict(evaluations=evals, distinct_nontrivial=len(nontrivial),
+    cov = dict(evaluations=evals, dense_pairs=dense_per, distinct_nontrivial=len(nontrivial),
                rule=f"all 6^n comparator patterns 1<=n<={N} in version order (built shuffled) plus random longer ones; invert() compared with the model on all of them; "
                     "on the well-formed non-vacuous ones (decided by the Coq spec): inverse validates, membership flips at every probe position (at/between/around, and under "
                     "alternative spellings of equal versions), double inversion gives back an equal range; 6 single comparators x 3 positions; star has no inverse; "
